@@ -142,6 +142,39 @@ claim("C07", "specification tables/constants by finite-domain evaluation, symbol
       "is read on every path (size 0 without marker ends cleanly). Not decided: the reference decoder's verdict on emitted bytes; range-coder bit-exactness.",
       TRUST, "DESIGN.md §4 C07")
 
+
+# ---- additions after the second round of seeded changes (DESIGN.md §12) ----
+ADD = {
+ "C01": ("encoder/decoder sibling agreement by normalised symbolic terms (TERM) incl. bit-vector identity; ring-modulus linear forms; deep-copy exhaustiveness",
+         " Added (DESIGN §12): SIB-OP / SIB-CODEC - encoder and decoder code the same bits with the same probability indices, contexts, exit conditions and rep updates on every "
+         "decision path, and every bit-level codec decodes the value it encodes (symbolic bit vectors, all inputs); RING-MOD wrap modulus of every circular-buffer index; COPY-ALL "
+         "(state snapshot carries every field); COUNT, SEQ-BWHASH (block check covers exactly the block's bytes); LIVE-LOOKAHEAD (a legal BufSize cannot stall the writer)."),
+ "C02": ("encoder/decoder sibling agreement by normalised symbolic terms; check-coverage and wiring rules",
+         " Added (DESIGN §12): SIB-OP / SIB-CODEC (the decoder side is pinned to the LZMA specification by TM-REP/CE tables, the encoder side must mirror it term by term), COPY-ALL, "
+         "COUNT, SEQ-BWHASH, WR-DICT-BLOCK (declared dictionary size of every block = capacity its encoder uses)."),
+ "C03": ("encoder/decoder sibling agreement by normalised symbolic terms; ring-modulus linear forms",
+         " Added (DESIGN §12): SIB-OP / SIB-CODEC (index terms, contexts, exit conditions, offsets of every codec path; distance-slot formulas as normal-form templates), RING-MOD on the "
+         "decoder window, exact writeMatch guards (a stricter guard rejects valid streams), COUNT, SEQ-RAWFILL (raw chunk larger than the window), little-endian check encoding."),
+ "C05": ("path rules on the end-of-data decisions", " Added: SEQ-RAWFILL, SEQ-DREAD (a failing decompress is returned at once, never followed by the eos test), EF-IO over the whole reader cone."),
+ "C06": ("sibling agreement by normalised symbolic terms; sign-exact guard; liveness bound",
+         " Added: OB-SIZE-SIGN (size 0 is an announced size), LIVE-LOOKAHEAD, SIB-OP / SIB-CODEC, RING-MOD."),
+ "C07": ("sibling agreement by normalised symbolic terms", " Added: SIB-OP / SIB-CODEC (encoder mirrors the specification-pinned decoder), RING-MOD (decoder window), OB-SIZE-SIGN."),
+ "C08": ("sibling agreement by normalised symbolic terms; partial-order event rules; ring-modulus linear forms",
+         " Added: flushChunk as a partial order over dependent steps; RING-MOD (CopyN supplies raw chunk payloads), COPY-ALL, SIB-OP / SIB-CODEC, SEQ-BUDGET (budget recomputed after every flush), "
+         "LIVE-LOOKAHEAD. Not decided: the numeric margin opLenMargin (seed C08-4 survives, DESIGN §15)."),
+ "C10": ("deferred-closure rule; library reader error provenance", " Added: SEQ-DEFER-RESULT (a deferred closure cannot overwrite a failure with nil: exit status), EF-IO over the library reader cone and SEQ-DREAD (truncated input is not accepted)."),
+ "C11": ("constructor results on error paths", " Added: SEQ-NIL-ON-ERR (no half-built reader installed with an error), startChunk effects (new properties => state sized for them)."),
+ "C13": ("counting wrappers by normalised terms", " Added: COUNT (counters advance by delivered, not requested bytes: independence from source fragmentation), SEQ-DREAD, multi-stream rules (stable EOF)."),
+ "C14": ("closure capture scan of package initialisation", " Added: GL-INIT-CLOSURE (no closure built during package initialisation captures a shared object, e.g. one hash for all blocks)."),
+ "C15": ("path rule for `--`; deferred-closure rule", " Added: SEQ-DASHDASH, SEQ-DEFER-RESULT, reader window = max(declared, configured) (files from other presets decode)."),
+ "C16": ("path rules on raw chunks and the chunk budget", " Added: SEQ-RAWFILL, SEQ-BUDGET."),
+ "C17": ("allocation / budget / ring-modulus structural preconditions", " Added: WR-HTALLOC (hash chain covers the whole dictionary), SEQ-BUDGET, RING-MOD on the match finders. Still only structural preconditions of the bounds."),
+ "C18": ("wiring of the declared size per block", " Added: WR-DICT-BLOCK (every block header declares the capacity its own encoder uses)."),
+}
+for pid, (tech, text) in ADD.items():
+    t0, x0, n0, r0 = CLAIMS[pid]
+    CLAIMS[pid] = (t0 + "; " + tech, x0 + text, n0 + "TERM normal forms (term.go), LIN (lin.go), reference function table knownfuncs.txt. ", r0 + ", §12")
+
 NOT_YET = "not yet decided: rules under construction (DESIGN.md §10); no claim is made"
 
 def main():
@@ -176,7 +209,7 @@ def main():
         "engines": [{
             "name": "xzverify", "path": "checker/",
             "serves_properties": [c["property_id"] for c in checks],
-            "kind_free_text": "repository-specific static analyser over go/packages + go/ssa + VTA call graph (path-sensitive walker, error provenance, finite-domain table extraction, guard obligations, typestate/ordering, globals/lockset, panic census, spec constants/templates)",
+            "kind_free_text": "repository-specific static analyser over go/packages + go/ssa + VTA call graph (path-sensitive walker with helper inlining, error provenance, finite-domain table extraction, guard obligations, typestate/ordering, globals/lockset, panic census, spec constants/templates, normalised symbolic terms with interval and bit-vector reasoning for encoder/decoder sibling agreement, linear forms)",
         }],
         "checks": checks,
         "not_applicable": na,
